@@ -160,6 +160,42 @@ func (x *Exec) intrinsic(fr *Frame, st *State, ins ssa.Instruction, cc *ssa.Call
 		default:
 			panic(engErr("vs_modifies: unsupported target type %s", mi.X.Type()))
 		}
+	case "vs_called", "vs_callResult", "vs_callArg":
+		// call history of the function under verification (evaluated in the state of the clause)
+		nC, ok := cc.Args[0].(*ssa.Const)
+		if !ok {
+			panic(engErr("%s: the callee name must be a constant", name))
+		}
+		rec := st.calls[constString(nC)]
+		if name == "vs_called" {
+			if rec == nil {
+				fr.regs[res] = tFalse
+			} else {
+				fr.regs[res] = rec.called
+			}
+			break
+		}
+		iC, ok := cc.Args[1].(*ssa.Const)
+		if !ok {
+			panic(engErr("%s: the index must be a constant", name))
+		}
+		i := int(iC.Int64())
+		rt := callee.Signature.Results().At(0).Type()
+		var vals []Term
+		if rec != nil {
+			vals = rec.results
+			if name == "vs_callArg" {
+				vals = rec.args
+			}
+		}
+		if rec == nil || i >= len(vals) {
+			fr.regs[res] = vc.zero(rt)
+		} else {
+			if vals[i].Sort != vc.sortOf(rt) {
+				panic(engErr("%s(%q, %d): the recorded value has sort %s, the clause expects %s", name, constString(nC), i, vals[i].Sort, vc.sortOf(rt)))
+			}
+			fr.regs[res] = vals[i]
+		}
 	case "vs_done":
 		rf := x.realFrame(fr)
 		if rf == nil {
